@@ -12,6 +12,11 @@ func runC12(c *Ctx) {
 	scannerT := c.typeObj("postscript", "scanner")
 	ia := c.interp()
 
+	// consecutive Execute calls behave like one call on the concatenation only if the start check
+	// (CheckStart: the input must begin with %!) is made once — the flag is cleared when the check
+	// has passed — and otherwise leaves no trace; same decision table as C11 (L7-START)
+	c.startCheck(ia)
+
 	c.readCountRule("DLV-READCOUNT", func(*ssa.Function) bool { return true })
 	c.floor("DLV-READCOUNT", 3)
 
